@@ -243,17 +243,27 @@ class WritableVersion(dns.zone.WritableVersion):
         return (node, name)
 
     def update_glue_flag(self, name: dns.name.Name, is_glue: bool) -> None:
-        """Set or clear the ``NodeFlags.GLUE`` flag on all nodes that are
-        subdomains of *name*.
+        """Update the flags of all nodes that are proper subdomains of *name* after
+        *name* has become (*is_glue* is ``True``) or has stopped being (*is_glue* is
+        ``False``) a delegation point.
+
+        Beneath a new delegation point every node is glue, and an NS owner there is
+        no longer a delegation point itself.  Beneath a former delegation point the
+        topmost NS owners become delegation points again, the nodes beneath them
+        stay glue, and all other nodes lose the ``GLUE`` flag.
 
         :param name: The delegation-point name whose subtree should be updated.
         :type name: :py:class:`dns.name.Name`
-        :param is_glue: ``True`` to set the GLUE flag; ``False`` to clear it.
+        :param is_glue: ``True`` if *name* is now a delegation point; ``False`` if
+            it no longer is.
         :type is_glue: bool
         """
         cursor = self.nodes.cursor()  # pyright: ignore
         cursor.seek(name, False)
         updates = []
+        # The nearest delegation point found beneath a former one.  The subtree is
+        # visited in DNS order, so a cut is always seen before the names beneath it.
+        cut = None
         while True:
             elt = cursor.next()
             if elt is None:
@@ -269,8 +279,16 @@ class WritableVersion(dns.zone.WritableVersion):
                 self.changed.add(ename)
                 node = new_node
             assert isinstance(node, Node)
-            if is_glue:
+            if is_glue or (cut is not None and ename.is_subdomain(cut)):
                 node.flags |= NodeFlags.GLUE
+                node.flags &= ~NodeFlags.DELEGATION
+                if is_glue:
+                    self.delegations.discard(ename)
+            elif node.get_rdataset(self.zone.rdclass, dns.rdatatype.NS) is not None:
+                cut = ename
+                node.flags |= NodeFlags.DELEGATION
+                node.flags &= ~NodeFlags.GLUE
+                self.delegations.add(ename)
             else:
                 node.flags &= ~NodeFlags.GLUE
             # We don't update node here as any insertion could disturb the
